@@ -73,6 +73,7 @@ func cmdFunc(args []string) {
 	}
 	sort.Strings(keys)
 	cfg := vc.SolverCfg{Timeout: *timeout, WorkDir: *work, Parallel: 16, Solvers: []string{"z3new", "z3", "cvc5"}}
+	vc.CoverCallsites = true // the developer runner always probes pinned calls for reachability
 	bad := 0
 	for _, k := range keys {
 		fc := en.CS.Funcs[k]
